@@ -166,6 +166,43 @@ def run_realpool(case):
     if ref_p.exc is not None:
         res.bump("aborted_reference_runs")
         return res
+    # several samplers in ONE process, same likelihood function and pool size, different bound arguments:
+    # each must reproduce ITS OWN serial run (worker pools / caches must not be shared across samplers)
+    for extra in ({"ll_kwargs": {"scale": 0.25}}, {"ll_args": [1.5]}):
+        c2 = dict(cfg, **extra)
+        rp2, rt2 = _run(dict(c2, eval="scalar"), base)
+        n2 = max(case["sizes"])
+        p2, t2 = _run(dict(c2, eval="poolint", pool_n=n2), base)
+        res.evals += 2
+        res.states += len(t2)
+        res.trans += len(t2)
+        if rp2.exc is None:
+            _compare(res, "real-pool-second-sampler", f"pool={n2} for a second sampler in the same process with {extra}, cfg={cfg}", dict(case, extra=extra), rt2, t2, rp2, p2)
+    # the same, with ONE plain function object shared by all samplers (only the bound arguments differ)
+    from tempest import Sampler
+    from mc import targets as _t
+    from mc.tape import OwnedRandom
+
+    def _direct(pool, **bound):
+        s_ = Sampler(_t.pt_affine, _t.ll_param, n_dim=2, n_particles=6, clustering=cfg.get("clustering", False), sample=cfg.get("sample", "tpcn"), pool=pool, **bound)
+        with OwnedRandom(1234 + base):
+            s_.run(n_total=24, progress=False)
+        return digest([s_.state._history["u"], s_.state._history["logl"], s_.state._history["beta"], float(s_.evidence()[0]), s_.state.get_current("calls")])
+
+    for bound in ({}, {"log_likelihood_kwargs": {"scale": 0.25}}, {"log_likelihood_args": [1.5]}, {"log_likelihood_args": [-2.0], "log_likelihood_kwargs": {"scale": 3.0}}):
+        try:
+            serial = _direct(None, **bound)
+            pooled = _direct(max(case["sizes"]), **bound)
+        except Exception as e:
+            res.violate(f"shared-function:raises:{type(e).__name__}", f"run with a shared likelihood function and {bound} raised {e!r}", dict(case, bound=str(bound)))
+            continue
+        res.evals += 2
+        res.states += 1
+        res.trans += 2
+        if serial != pooled:
+            res.violate("shared-function:pool-differs-from-serial", f"a sampler with bound arguments {bound} (same likelihood function object as the samplers before it in this process) gives a different run with "
+                        f"pool={max(case['sizes'])} than serially (cfg={cfg})", dict(case, bound=str(bound)))
+        res.outcome(("shared-function", str(bound), serial), nontrivial=bool(bound))
     for n in case["sizes"]:
         p, tr = _run(dict(cfg, eval="poolint", pool_n=n), base)
         res.evals += 1
